@@ -308,6 +308,7 @@ func runC06(c *Ctx) {
 	r.Doc("N6", "the base-path candidates (uncrowded) are exactly the registered priorities with actual < strategic", 2)
 	r.Doc("N7", "the 'allotment filled' predicate answers true exactly when every listed priority has a non-zero allotment", 2)
 	r.Doc("N10", "(= E2 registration) a newly registered channel starts not drained, so it is read", 1)
+	r.Doc("N13", "every division into the allotment map starts from the emptied map (nearest event before it is the reset)", 4)
 	r.Doc("N12", "the may-proceed answer of a dividing function is the for-all over the list it just divided", 4)
 	r.Doc("N9", "(= P4) the pass over an input is left early only for lack of data, closure or stop", 4)
 	r.Doc("N8", "second-phase candidates: first the priorities that used up their allotment (tactic == 0), then those with actual < hypothetical share", 4)
@@ -329,6 +330,7 @@ func runC06(c *Ctx) {
 		checkN2b(c, pr)
 		checkN78(c, pr)
 		checkN12(c, pr, "N12")
+		checkN13(c, pr, "N13")
 		checkN3(c, pr)
 		subp := &Ctx{V1: c.V1, V2: c.V2, Tier: c.Tier, R: NewReport("tmp", c.Tier)}
 		checkB5(subp, pr, true)
@@ -1159,6 +1161,114 @@ func checkN2b(c *Ctx, pr *prioRoles) {
 			}
 			c.R.Check(okZero, "N2", fmt.Sprintf("%s#no-proceed.%d", p.FnKey(fn), n), p.InstrPos(ret), "cannot proceed only when vacants == 0", "the round-start calculation gives up although handlers may be vacant (not under vacants == 0): the scheduler then waits for a release that never comes when nothing is in flight")
 		}
+	}
+}
+
+// checkN13: the divider adds to the distribution it is given, so every division into the
+// allotment map starts from an emptied map: the nearest event before it (in the function that makes
+// the call) is the reset of the allotment - not an earlier division, not a spending phase. Dividing
+// on top of what an earlier step left there gives priorities without data a share of what a lone
+// active priority should have been granted (and, undivided leftovers added in, more than is vacant).
+func checkN13(c *Ctx, pr *prioRoles, rule string) {
+	p := pr.p
+	type ev struct {
+		in   *ssa.Call
+		kind string
+	}
+	inRt := map[*ssa.Function]bool{}
+	for _, fn := range pr.rt.Funcs {
+		inRt[fn] = true
+	}
+	// wrappers: functions whose division into the allotment has nothing before it in the function
+	// itself (divideTactic(list, quantity) = safeDivide(divider, list, quantity, dsc.tactic)): the
+	// call of the wrapper is the division, judged where it is called
+	wrapper := map[*ssa.Function]bool{}
+	events := func(fn *ssa.Function) []ev {
+		var evs []ev
+		for _, b := range fn.Blocks {
+			for _, in := range b.Instrs {
+				call, ok := in.(*ssa.Call)
+				if !ok {
+					continue
+				}
+				cal := p.Callee(call)
+				switch {
+				case cal == nil:
+				case cal == pr.resetFn:
+					evs = append(evs, ev{call, "reset"})
+				case isCheckedDivision(cal) && len(call.Call.Args) == 4 && p.isFieldLoad(call.Call.Args[3], "tactic"):
+					evs = append(evs, ev{call, "division"})
+				case wrapper[cal]:
+					evs = append(evs, ev{call, "division"})
+				case p.IsProduct(cal) && (p.Reach(cal)[pr.sendFn] || p.Reach(cal)[pr.safeDivideFn]):
+					evs = append(evs, ev{call, "other"})
+				}
+			}
+		}
+		return evs
+	}
+	nearest := func(evs []ev, d ev) *ev {
+		var last *ev
+		for i := range evs {
+			e := &evs[i]
+			if e.in == d.in || !instrDominates(e.in, d.in) {
+				continue
+			}
+			if last == nil || instrDominates(last.in, e.in) {
+				last = e
+			}
+		}
+		return last
+	}
+	for changed := true; changed; {
+		changed = false
+		for _, fn := range pr.rt.Funcs {
+			if wrapper[fn] || fn == pr.safeDivideFn {
+				continue
+			}
+			evs := events(fn)
+			for _, d := range evs {
+				if d.kind == "division" && nearest(evs, d) == nil {
+					called := false
+					for _, sa := range p.CallSitesX(fn) {
+						if inRt[sa.Call.Parent()] {
+							called = true
+						}
+					}
+					if called {
+						wrapper[fn] = true
+						changed = true
+					}
+				}
+			}
+		}
+	}
+	n := 0
+	for _, fn := range pr.rt.Funcs {
+		if fn == pr.safeDivideFn {
+			continue
+		}
+		evs := events(fn)
+		for _, d := range evs {
+			if d.kind != "division" {
+				continue
+			}
+			last := nearest(evs, d)
+			if last == nil && wrapper[fn] {
+				continue // judged at the call sites of fn
+			}
+			n++
+			key := fmt.Sprintf("%s#fresh-allotment.%d", p.FnKey(fn), n)
+			okReset := last != nil && last.kind == "reset"
+			what := "nothing"
+			if last != nil {
+				what = last.kind + " at " + p.InstrPos(last.in)
+			}
+			c.R.Check(okReset, rule, key, p.InstrPos(d.in), "division into the just emptied allotment", "the division at "+p.InstrPos(d.in)+" adds to an allotment map that was not emptied right before it (nearest event before it: "+what+"): what an earlier step left there is counted again")
+		}
+	}
+	if n == 0 {
+		c.R.Fail(rule, p.Name+":priority#fresh-allotment", "-", "UNRESOLVED-ANCHOR: no division into the allotment map found")
 	}
 }
 
